@@ -17,7 +17,7 @@ func TestC03(t *testing.T) { runArms(t, "C03", ruleC03) }
 func init() {
 	addArm("C03", "panos", func(rt *rapid.T, ev *evid.Collector) {
 		c := panCase("C03", panm.GenPair(rt, panm.GenOpts{}))
-		judge(rt, ev, panF21(oracleC03pan), c, func() any { return c })
+		judge(rt, ev, oracles["C03/panos"], c, func() any { return c })
 	})
 	addArm("C08", "panos", func(rt *rapid.T, ev *evid.Collector) {
 		c := panCase("C08", panm.GenPair(rt, panm.GenOpts{}))
